@@ -94,6 +94,9 @@ def _run_one(entry: dict, repo: str) -> dict:
             os.environ.pop('PLUMPY_SA_NO_EVIDENCE', None)
         out = buf.getvalue()
         res['rc'] = rc
+        import re as _re
+        res['fired'] = sorted({f'{m_.group(1)}[{m_.group(2).split(":")[0]}]' for ln in out.splitlines() if ln.startswith('  ')
+                               for m_ in [_re.search(r' -- ([A-Za-z-]+) \[([^\]]+)\]', ln)] if m_})
         if entry['expect'] == 'fire':
             ok = rc == 1
             if ok and entry.get('names'):
